@@ -22,11 +22,14 @@ static void *producer(void *a)
 {
 	long id = (long)a;
 	for (int k = 0; k < LINES; ++k) {
+		VS_BOOKKEEPING_BEGIN();
 		Sub& s = subs[id][k];
 		s.text = "P" + std::to_string(id) + "L" + std::to_string(k);
 		s.level = (id == 0 && k == LINES - 1 && LINES > 1) ? Logger::Debug : (k % 2 ? Logger::Error : Logger::Info);	// one line at a disabled level
-		s.ret = lg->send(s.text, (Logger::Level)s.level);
-		s.end_seq = ++gseq;
+		const std::string text = s.text; const Logger::Level lvl = (Logger::Level)s.level;
+		VS_BOOKKEEPING_END();
+		const bool ret = lg->send(text, lvl);
+		VS_BOOKKEEPING_BEGIN(); s.ret = ret; s.end_seq = ++gseq; VS_BOOKKEEPING_END();
 	}
 	return 0;
 }
